@@ -679,6 +679,8 @@ class Check(common.Check):
         """well-formed and mildly damaged datagrams for the decoder tie (the hostile stream is C18's)"""
         parts = [b'/a\x00\x00,i\x00\x00\x00\x00\x00\x05', b'/ab\x00,sf\x00xyz\x00\x3f\x80\x00\x00',
                  b'/abc\x00\x00\x00\x00,b\x00\x00\x00\x00\x00\x03\x01\x02\x03\x00',
+                 b'/abc\x00\x00\x00\x00,bis\x00\x00\x00\x00\x00\x00\x00\x02AB\x00\x00\x00\x00\x04\xd2tail\x00\x00\x00\x00',
+                 b'/b\x00\x00,bbf\x00\x00\x00\x00\x00\x00\x00\x05ABCDE\x00\x00\x00\x00\x00\x00\x01Z\x00\x00\x00\x3f\x00\x00\x00',
                  b'/t\x00\x00,TF[i[f]]\x00\x00\x00\x00\x00\x00\x00\x07\x40\x00\x00\x00',
                  b'/d\x00\x00,dtrm\x00\x00\x00' + bytes(range(24)),
                  b'/n\x00\x00,NIxi\x00\x00\x00\x00\x00\x00\x09']
